@@ -2019,6 +2019,12 @@ func createRoutingKey(routingKeyInfo *routingKeyInfo, values []interface{}) ([]b
 		return nil, nil
 	}
 
+	for _, index := range routingKeyInfo.indexes {
+		if index < 0 || index >= len(values) {
+			return nil, fmt.Errorf("gocql: routing key column %d is out of range of the %d bound values", index, len(values))
+		}
+	}
+
 	if len(routingKeyInfo.indexes) == 1 {
 		// single column routing key
 		routingKey, err := Marshal(
